@@ -137,7 +137,12 @@ impl ModuleCollector {
 /// This is used by both the CLI and the LSP to typecheck multi-file projects.
 pub fn resolve_import_path(base_dir: &Path, import: &ImportDecl) -> Option<PathBuf> {
     let (path, is_absolute, parent_levels) = match &import.kind {
-        ImportKind::Module(p) if !p.segments.is_empty() => (p.segments.clone(), p.is_absolute, p.parent_levels),
+        // Rust-style `import a::b::Item`: the last segment names the item, the module is `a::b`
+        // (same rule as `cli::commands::collect_modules`). A single segment is the module itself.
+        ImportKind::Module(p) if !p.segments.is_empty() => {
+            let n = if p.segments.len() > 1 { p.segments.len() - 1 } else { 1 };
+            (p.segments[..n].to_vec(), p.is_absolute, p.parent_levels)
+        }
         ImportKind::From { module, .. } if !module.segments.is_empty() => {
             (module.segments.clone(), module.is_absolute, module.parent_levels)
         }
